@@ -4,8 +4,8 @@ core Lean only.
 
 * the object store: `ObjectStore._objects` as an insertion-ordered map identifier → object (`Objects`), `_file_store` as
   the ordered list of members, each `.iwa` member with the identifiers of its archives in file order (`Files`; any other
-  blob is `none`), `_max_id`; `create_object_from_dict` (first member whose name contains the pattern, new member
-  otherwise, AttributeError when that member is not an IWA file), `find_refs` (store iteration order).
+  blob is `none`), `_max_id`; `create_object_from_dict` (first IWA member whose name contains the pattern, new member
+  otherwise; blobs are never candidates), `find_refs` (store iteration order).
 * every message abstracted to the fields this property reads: `DocumentArchive.sheets`, `SheetArchive.name /
   drawable_infos`, `TableInfoArchive.super.parent / tableModel / super.caption / super.caption_hidden /
   super.geometry.position`, `TableModelArchive.table_name / table_name_enabled / number_of_header_rows /
@@ -54,15 +54,28 @@ structure Doc where
 def getObj (os : Objects) (k : Nat) : PyM Obj := dictGet os k
 
 /-- `create_object_from_dict(iwa_file, …, cls)` (append = False): the new identifier is `_max_id + 1`; the archive is
-    appended to the first member whose name contains `iwa_file`, or becomes the only archive of the new member
-    `iwa_file.format(new_id) + ".iwa"`. -/
+    appended to the first IWA member whose name contains `iwa_file` (`ObjStore.iwaPaths`: members that are not IWA archives
+    are no candidates, fixes/C19-new-objects-go-to-iwa-members.patch), or becomes the only archive of the new member
+    `iwa_file.format(new_id) + ".iwa"`.  It raises nothing. -/
 def createObject (d : Doc) (iwaFile : Text) (o : Obj) : PyM (Doc × Nat) :=
+  let newId := d.maxId + 1
+  match iwaPaths d.files iwaFile with
+  | [] =>
+    let path := pyFormat1 iwaFile (natStr newId) ++ ".iwa".toList
+    .ok ({ objects := dictSet d.objects newId o, files := dictSet d.files path (some [newId]), maxId := newId }, newId)
+  | (path, segs) :: _ =>
+    .ok ({ objects := dictSet d.objects newId o, files := dictSet d.files path (some (segs ++ [newId])), maxId := newId },
+         newId)
+
+/-- the pinned code: the first member whose name contains the pattern, whatever it holds — a `bytes` blob has no `.chunks`
+    (AttributeError).  Kept for the counter-example in Props/C19.lean only. -/
+def createObjectPinned (d : Doc) (iwaFile : Text) (o : Obj) : PyM (Doc × Nat) :=
   let newId := d.maxId + 1
   match d.files.find? (fun f => isInfix iwaFile f.1) with
   | none =>
     let path := pyFormat1 iwaFile (natStr newId) ++ ".iwa".toList
     .ok ({ objects := dictSet d.objects newId o, files := dictSet d.files path (some [newId]), maxId := newId }, newId)
-  | some (_, none) => .error .AttributeError      -- a blob (bytes) has no `.chunks`
+  | some (_, none) => .error .AttributeError
   | some (path, some segs) =>
     .ok ({ objects := dictSet d.objects newId o, files := dictSet d.files path (some (segs ++ [newId])), maxId := newId },
          newId)
@@ -265,7 +278,7 @@ def setCaption (d : Doc) (tid : Nat) (s : Text) : PyM Doc := do
 
 /-! ### `_NumbersModel.add_sheet`, `_NumbersModel.add_table` -/
 
-/-- `add_sheet(sheet_name)`: a SheetArchive in the first member whose name contains "Document"; its reference is appended
+/-- `add_sheet(sheet_name)`: a SheetArchive in the first IWA member whose name contains "Document"; its reference is appended
     to `DocumentArchive.sheets` -/
 def addSheet (d : Doc) (name : Text) : PyM (Doc × Nat) := do
   let (d1, sid) ← createObject d "Document".toList (.sheet name [])
